@@ -216,8 +216,8 @@ Proof.
   apply throttling_over; assumption.
 Qed.
 
-(* T3, on one decision: a due force-pass admits whatever the draw *)
-Lemma force_due_admits : forall cfg r lp now u,
+(* T3, on one decision: a due force-pass lets the call through whatever the draw *)
+Lemma force_due_passes : forall cfg r lp now u,
   0 < lp -> c_force cfg < now - lp -> decide cfg r lp now u <> VReject.
 Proof.
   intros cfg r lp now u H1 H2 H. apply decide_reject in H. destruct H as (_ & H & _).
@@ -463,7 +463,7 @@ Lemma exact_accounting_step : forall cfg w c,
       w_marks w' = w_marks w ++ [(now, v_drop)] /\
       swin (w_st w') = rw_add (swin (w_st w)) now v_drop
     else
-      (* admitted: request exactly once (Allow: the caller resolves the promise), its
+      (* let through: request exactly once (Allow: the caller resolves the promise), its
          error / panic handed back unchanged, one success or failure recorded *)
       let x := if counts_as_success (k_entry c) (k_out c) then v_success else v_fail in
       o_req o = (if is_allow (k_entry c) then 0 else 1) /\ o_fb o = 0 /\
